@@ -1,0 +1,16 @@
+// Copyright 2025 The Go MCP SDK Authors. All rights reserved.
+// Use of this source code is governed by an MIT-style
+// license that can be found in the LICENSE file.
+
+//go:build verif
+
+// Contracts for the verification framework in /verif (comment-only; see /verif/DESIGN.md).
+// This file declares nothing and is compiled only with -tags verif.
+
+package authutil
+
+// IssuersEqual compares two issuer identifiers ignoring one trailing slash; it only reads its arguments.
+//@ pred issuersEq(a string, b string) := trimSuffix(a, "/") == trimSuffix(b, "/")
+//@ func IssuersEqual [C15]
+//@   pure
+//@   ensures @same-up-to-a-trailing-slash result <==> issuersEq(a, b)
